@@ -247,7 +247,7 @@ namespace
         int                ops_left;
         false_report_guard frg;
         bool               use_traits;
-        long               scopes = 0, shrinks = 0;
+        long               scopes = 0, shrinks = 0, refusals = 0;
     };
 
     void temp_scope(temp_ctx& t, temporary_stack* st, int depth, const std::string& kind)
@@ -255,7 +255,7 @@ namespace
         auto& r = *t.r;
         op("scope{ depth=%d", depth);
         unsigned id_floor = t.sh.next_id;
-        long     shrinks0 = t.shrinks;
+        long     shrinks0 = t.shrinks, refusals0 = t.refusals;
         auto     blocks0  = mlog().live.size(); // upstream blocks held when the scope begins
         bool     shrink_requested = false;
         char*       first_addr = nullptr;
@@ -309,6 +309,25 @@ namespace
                     ++t.shrinks;
                     shrink_requested = true;
                 }
+                else if (x < 98 && t.refusals < 2 && ta->get_stack().next_capacity() < (std::size_t(1) << 16))
+                {
+                    // a request no block of the stack can hold is refused (bad_allocation_size); the scope goes on, and everything it is given
+                    // afterwards lies in the stack's memory like before (the library moves on to the next block before it refuses)
+                    auto size = ta->get_stack().next_capacity() + 1 + r.below(100);
+                    op("refused request %zu", size);
+                    try
+                    {
+                        // (should the current block happen to have that much room, it is an ordinary allocation)
+                        void* p = ta->allocate(size, 1);
+                        t.sh.add([&](const char* q, std::size_t k) { return mlog().owns(q, k); }, p, false, 1, size, 1, depth);
+                    }
+                    catch (bad_allocation_size&)
+                    {
+                        vf::count("refused_oversize");
+                    }
+                    ++t.refusals;
+                    t.sh.sweep();
+                }
                 else
                     t.sh.sweep();
                 t.frg.check("temporary allocate");
@@ -325,6 +344,9 @@ namespace
         flag("unwind");
         // a scope that asked for shrink_to_fit() returns, when it ends, every block that is not in use by an outer scope:
         // no more upstream blocks are held than when it began (explicit stack only: the malloc log then holds nothing else)
+        if (shrink_requested && st && mlog().live.size() > blocks0 && cx().prop == "C06")
+            viol_nothrow("C06", "C06/" + kind + "/shrink-kept-blocks",
+                         "blocks freed by the unwind at the end of a scope that requested shrink_to_fit() are still cached");
         if (shrink_requested && st && mlog().live.size() > blocks0)
             viol("C05", "C05/" + kind + "/shrink-kept-blocks",
                  "a temporary_allocator scope requested shrink_to_fit(); when it began %zu upstream blocks were held, after its end %zu are", blocks0,
@@ -333,7 +355,7 @@ namespace
             vf::count("scopes_with_shrink");
         // replay: a new scope at the same place gets the same first address for the same first request
         // (only while the block cache has not been purged: shrink_to_fit() of a scope takes effect when it ends)
-        if (first_addr && t.shrinks == shrinks0 && r.chance(60))
+        if (first_addr && t.shrinks == shrinks0 && t.refusals == refusals0 && r.chance(60))
         {
             arm                                  g;
             std::unique_ptr<temporary_allocator> again(st ? new temporary_allocator(*st) : new temporary_allocator());
